@@ -127,6 +127,8 @@ type Path struct {
 	sleepBlocks    bool
 	eagerOffsets   bool
 	timedSleep     bool
+	randZero       bool
+	fineFuncs      map[string]bool
 	httpServeCalls int
 }
 
